@@ -31,6 +31,7 @@ macro_rules! int_case {
         if win != wincode::serialize(&n).unwrap() { err = Some("wincode encoding differs from the primitive's".into()); }
         if wincode::deserialize::<$P>(&win).ok() != Some(pod) { notes.push("wincode decoder does not read back what the encoder wrote"); }
         if pod_from_bytes::<$P>(&bytes).ok() != Some(&pod) { err = Some("byte cast of own bytes failed".into()); }
+        BORSH_NOTES.with(|n| for x in n.borrow_mut().drain(..) { if !notes.contains(&x) { notes.push(x); } });
         if spl_pod::bytemuck::pod_get_packed_len::<$P>() != bytes.len() { notes.push("pod_get_packed_len differs from the width"); }
         (
             format!("bytes={} back={} borsh={} json={} wincode={}{}", hex(&bytes), back,
@@ -43,10 +44,20 @@ macro_rules! int_case {
 }
 
 fn no_borsh<T>(_: &T) -> Option<Vec<u8>> { None }
+/// a reader that hands out one byte per `read` call (a socket, a small `BufReader`): decoders must use `read_exact`
+struct OneByte<'a>(&'a [u8]);
+impl<'a> borsh::io::Read for OneByte<'a> {
+    fn read(&mut self, buf: &mut [u8]) -> borsh::io::Result<usize> {
+        if buf.is_empty() || self.0.is_empty() { return Ok(0); }
+        buf[0] = self.0[0]; self.0 = &self.0[1..]; Ok(1)
+    }
+}
+thread_local! { static BORSH_NOTES: std::cell::RefCell<Vec<&'static str>> = std::cell::RefCell::new(vec![]); }
 fn yes_borsh<T: borsh::BorshSerialize + borsh::BorshDeserialize + PartialEq>(t: &T) -> Option<Vec<u8>> {
     let b = borsh::to_vec(t).unwrap();
-    // the decoder is exercised too (coverage), but what it returns is not part of the property
-    let _ = guarded(|| borsh::from_slice::<T>(&b).is_ok());
+    // the decoders are exercised too (coverage), but what they return is not part of the property: differences are notes
+    if guarded(|| borsh::from_slice::<T>(&b).ok().map_or(false, |x| x == *t)) != Some(true) { BORSH_NOTES.with(|n| n.borrow_mut().push("borsh decoder does not read back what the encoder wrote")); }
+    if guarded(|| T::deserialize_reader(&mut OneByte(&b)).ok().map_or(false, |x| x == *t)) != Some(true) { BORSH_NOTES.with(|n| n.borrow_mut().push("borsh decoder fails on a reader that delivers the bytes one at a time")); }
     Some(b)
 }
 
@@ -341,6 +352,15 @@ fn run_c14(t: &[&str], out: &mut RunOut, line: &str) {
             if !is_none_val && json != serde_json::to_string(&a).unwrap() { notes.push("serde encoding of some differs from the value's"); }
             if borsh::from_slice::<PodOption<Address>>(&borsh_b).ok() != Some(po) { notes.push("borsh decoder does not read back what the encoder wrote"); }
             if serde_json::from_str::<PodOption<Address>>(&json).ok() != Some(po) { notes.push("serde decoder does not read back what the encoder wrote"); }
+            {
+                // deserialising INTO an existing value (serde's `deserialize_in_place`, what `Vec::deserialize_in_place` does
+                // with recycled elements): a decoder matter, outside the property's wording, so a note
+                use serde::Deserialize;
+                let mut place = PodOption::from(Address::new_from_array([0x5a; 32]));
+                let mut de = serde_json::Deserializer::from_str(&json);
+                let ok = PodOption::<Address>::deserialize_in_place(&mut de, &mut place).is_ok();
+                if !ok || place != po { notes.push("serde deserialize_in_place over an existing value does not yield what the encoder wrote"); }
+            }
             if bytemuck::try_from_bytes::<PodOption<Address>>(&raw).ok() != Some(&po) { err = Some("byte cast".into()); }
             // Serde deserialisers that buffer their input first (flatten, internally tagged and untagged enums) hand the
             // value over through other visitor callbacks (a null arrives as `unit`): a valid option must come back from them too
